@@ -365,6 +365,16 @@ def method_rules(ctx, facts, rep):
         ag = aggs_in(from_u16, blocks, CM)
         if len(ag) == 1:
             frommap[v] = ag[0][2]["rv"]["variant"]
+        else:
+            # the arm yields a value built elsewhere (an associated constant such as CompressionMethod::DEFLATE): its value decides
+            exf = Ex(from_u16)
+            vals = set()
+            for bi_, si_, s_ in from_u16.stmts():
+                if bi_ in blocks and s_["k"] == "assign" and s_["place"]["l"] == 0 and not s_["place"]["p"]:
+                    for a_ in alts(norm(exf.rvalue(s_["rv"], (bi_, si_)))):
+                        vals.add(a_[1][4:] if a_[0] == "agg" and str(a_[1]).startswith("adt:") and a_[2] == CM else "?")
+            if len(vals) == 1 and "?" not in vals:
+                frommap[v] = vals.pop()
     for name, code in spec["methods"].items():
         if name not in names.values():
             continue  # variant not compiled in this configuration
